@@ -21,7 +21,7 @@ func init() {
 		Rule: "case = one pair of valid polygonal operands in general position (operands with more than one ring are additionally presented as ONE polygon holding all rings in random order - a hole may precede its shell, as in the library's own Difference/Union results - half of those laid out as consecutive sub-slices of one backing array, and as a MultiPolygon whose members hold their rings in random order, sometimes with an empty member; star rings of 3-60 vertices (300 thorough) with 0-3 holes, rotated comb and staircase rings, multi-polygons of 2-4 disjoint members, boxes; configurations: operands differing in size by 10^3..10^6.3 (a triangle inside / in a hole of / next to a large shape), overlapping, B inside A, B inside a hole of A, A inside B, disjoint with overlapping bounding boxes, bounding-box-disjoint on one or both axes; random ring orientation/start/closure) run through all four operations plus the reverse difference for every receiver/argument presentation {Polygon, MultiPolygon, *Bounds}^2 the shapes admit; " +
 			"each result is judged at <= 96 margin points by the harness's exact even-odd membership (A, B and result rings), by the inclusion-exclusion area identities (exact Operand areas, nesting-parity area of the result rings), ring closure and the empty-result rule; " +
 			"an evaluation is one operation result judged; non-trivial = Operand pair whose true intersection and both differences each contain a margin point (distinct by Operand hash)",
-		Assumptions: []string{"operands validated by the harness: simple rings, holes inside shells, no vertex of one Operand within 1e-7*diameter of an edge of the other (general position with a margin) - except in the phase near_coincident, which drops the margin (only exact incidences rejected) and, like the phases tiny_magnitude (coordinates 1e-13..1e-10) and huge_magnitude (1e154..1e160), reports everything under one key: they exhibit defects of the external clipper listed in known_findings.json", "phase far_from_origin (figures 1e5..1e9 times their size away from the origin) judges membership only, at points 1e-5*diameter clear of the input edges: result vertices are rounded to the float64 spacing at the offset", "test points keep 1e-7*diameter clear of every input edge", "Polygonal.Area() of a result is compared only when its rings do not touch each other (geom documents hole detection as undefined there)"},
+		Assumptions: []string{"operands validated by the harness: simple rings, holes inside shells, no vertex of one Operand within 1e-7*diameter of an edge of the other (general position with a margin) - except in the phase near_coincident, which drops the margin (only exact incidences rejected) and, like the phases tiny_magnitude (coordinates 1e-13..3e-7) and huge_magnitude (1e154..1e160), reports everything under one key: they exhibit defects of the external clipper listed in known_findings.json", "phase far_from_origin (figures 1e5..1e9 times their size away from the origin) judges membership only, at points 1e-5*diameter clear of the input edges: result vertices are rounded to the float64 spacing at the offset", "test points keep 1e-7*diameter clear of every input edge", "Polygonal.Area() of a result is compared only when its rings do not touch each other (geom documents hole detection as undefined there)"},
 		Phases: []core.Phase{{Name: "ops", NumCases: func(t string) int {
 			if t == "thorough" {
 				return 120000
@@ -397,12 +397,16 @@ func run(c *core.Ctx, idx int) {
 	scale := math.Pow(10, r.Range(-2, 3))
 	if c.Phase == "ops" && r.Chance(0.12) {
 		// other magnitudes: micro-units to astronomical (everything below is relative to the scale)
-		scale = math.Pow(10, r.Range(-6, 15))
+		// (not below 1e-4: with the configuration that pairs operands differing in size by up to
+		// 10^6.3 the smaller features must stay well above the clipper's absolute tolerance, which
+		// the phase tiny_magnitude is about)
+		scale = math.Pow(10, r.Range(-4, 15))
 		c.Count("scale.1e-6..1e15")
 	}
 	if c.Phase == "tiny_magnitude" {
-		// coordinates of magnitude 1e-13 .. 1e-10 (the clipper snaps with an absolute tolerance)
-		scale = math.Pow(10, r.Range(-13, -10))
+		// coordinates of magnitude 1e-13 .. 3e-7 (the clipper snaps with an absolute tolerance; the
+		// first wrong results appear around 1e-7, below 1e-10 most results are wrong)
+		scale = math.Pow(10, r.Range(-13, -6.5))
 		c.Count("scale.1e-13..1e-10")
 	}
 	hugeBy := 0.0
